@@ -257,7 +257,7 @@ def hist_header_set(W, ops, prng):
     other.headers[name] = "Seed"
     for op in ops:
         # (entries that need quoting in the header: blanks, a comma, backslashes in a row, a backslash before a quote)
-        x = prng.choice(["Cookie", "cookie", "COOKIE", "Accept", "x y", "x y", "a,b", "\\\\server\\share", 'tail\\"', "x\\\\\\y", 'q"r'])
+        x = prng.choice(["Cookie", "cookie", "COOKIE", "Accept", "x y", "x y", "a,b", "\\\\server\\share", 'tail\\"', "x\\\\\\y", 'q"r', "Stra\u00dfe", "gro\u00df"])
         hist.append((op, x))
         if prng.random() < 0.3:
             # the other response's property is looked at between our view being handed out and being edited
@@ -508,6 +508,13 @@ def hist_csp(W, ops, prng):
     r = W["Response"]()
     hname = prng.choice(["Content-Security-Policy", "Content-Security-Policy-Report-Only"])
     prop = "content_security_policy" if hname == "Content-Security-Policy" else "content_security_policy_report_only"
+    other_prop, other_hname = ("content_security_policy_report_only", "Content-Security-Policy-Report-Only") if prop == "content_security_policy" else ("content_security_policy", "Content-Security-Policy")
+    if prng.random() < 0.5:
+        # the response's *other* policy property is read (and used) first: the two views write to their own headers
+        other_view = getattr(r, other_prop)
+        other_view["object-src"] = "'none'"
+    else:
+        other_view = None
     csp = getattr(r, prop)
     m = {}
     hist = [prop]
@@ -572,6 +579,8 @@ def hist_csp(W, ops, prng):
             raise Drift("C16/csp:header-present-for-empty-view", f"{hist!r}: {hdr!r}")
         if dict(fresh) != dict(csp):
             raise Drift("C16/csp:fresh-view-differs", f"{hist!r}")
+        if other_view is not None and (r.headers.get(other_hname) != "object-src 'none'" or dict(getattr(r, other_prop)) != {"object-src": "'none'"}):
+            raise Drift("C16/csp:edit-reached-the-other-policy-header", f"{hist!r}: the other policy header, set once through its own view, now reads {r.headers.get(other_hname)!r}")
     return hist
 
 
